@@ -3,6 +3,9 @@ REPO ?= /repo
 SAN  ?= asan
 BUILD ?= build
 SIM  ?= sim
+# absolute, so that the dependency files name the same targets however make was invoked
+override BUILD := $(abspath $(BUILD))
+override SIM := $(abspath $(SIM))
 B    := $(BUILD)/$(SAN)
 CXX  := g++
 ifeq ($(SAN),asan)
